@@ -108,7 +108,7 @@ def build(h, members, form, attr, via):
     -> files {path: text}, main path, cursor for `x.|attr`, positions {(class, member): (file, line, col)}"""
     hier = HIER[h]
     n = len(hier)
-    split = form != 'same' and n > 1
+    split = form != 'same'
     files = {}
     where = {}
 
@@ -198,7 +198,7 @@ def problems(h, members, form, attr, via):
         prefix, props = assist(Project(['/r']), text, cur, mainp)
         loc = location(Project(['/r']), text, (cur[0], cur[1] + 1), mainp)
     bad = judge(props, loc, order, class_attrs, inst_attrs, inst_sites, class_site, where, a, via, '')
-    if form != 'same' and len(HIER[h]) > 1:
+    if form != 'same':
         # the same two requests on a long-lived project (as the server keeps one) that has already answered a
         # request through the other access path: the class objects of lib.py are shared between the requests
         other = 'class' if via != 'class' else 'instance'
